@@ -20,7 +20,10 @@ RULE = ("Hypothesis draws a table (mixed-type cells; ragged rows where the funct
         "whose header repeats a field name, every way of reading that field by name (values, cut, the three mapping forms of "
         "fieldmap, record access in addfield/rowmap/records) must read the same column, and it must be a column of that name "
         "(which one is not claimed). Sub 'setitem': two fieldmap / convert views configured by item assignment (the documented "
-        "suffix notation) are each exactly what they were given - no configuration leaks from one view to the next. Distinct by digest.")
+        "suffix notation) are each exactly what they were given - no configuration leaks from one view to the next. Sub 'chain': a second function of the family applied "
+        "to the OUTPUT VIEW of a first (one time in four the same function twice, each with arguments of its own); oracle: the "
+        "two reference implementations composed - what a function does must not depend on its input being a list or another "
+        "petl view (Record rows, tuples, fused shortcuts). Distinct by digest.")
 ASSUMPTIONS = [
     "negative *field* indices are undocumented and not generated; movefield only with the moved name unique",
     "skipcomments: rows with >= 1 cell (an empty row has no first value)",
@@ -1027,11 +1030,13 @@ def _chain_case(draw, tier, names):
     isragged = any(len(r) != len(mid[0]) for r in mid[1:])
     isdup = len(set(mid[0])) < len(mid[0])
     ident = all(f.isidentifier() and not f.startswith("_") for f in mid[0])   # namedtuples need identifier-like names
-    cands = [n for n in names if (OPS[n].ragged or not isragged) and (OPS[n].dup or not isdup) and len(mid[0]) >= OPS[n].min_fields
+    allc = [n for n in NAMES if (OPS[n].ragged or not isragged) and (OPS[n].dup or not isdup) and len(mid[0]) >= OPS[n].min_fields
              and (ident or not n.startswith("acc-"))]
-    if not cands:
+    cands = [n for n in allc if n in names] or allc
+    if not allc:
         return c
-    c["op2"] = draw(st.sampled_from(cands))
+    # (one time in four the same operator twice, with arguments of its own: cut of a cut, convert of a convert ...)
+    c["op2"] = c["op"] if (c["op"] in allc and draw(st.integers(0, 3)) == 0) else draw(st.sampled_from(cands))
     c["args2"] = OPS[c["op2"]].args(draw, mid)
     return c
 
@@ -1057,7 +1062,7 @@ def check_chain(case, ctx):
 
 
 SUBS = [Sub("rowops", check, strategy=case, quick=24000, thorough=400000),
-        Sub("chain", check_chain, strategy=chain_case, quick=8000, thorough=100000),
+        Sub("chain", check_chain, strategy=chain_case, quick=16000, thorough=200000),
         Sub("setitem", check_setitem, strategy=setitem_case, quick=800, thorough=8000),
         Sub("dupnames", check_dup, strategy=dup_case, quick=1500, thorough=20000)]
 KNOWN = {}
